@@ -1,2 +1,94 @@
-(* C16 *)
-From Grex Require Import Base.Str.
+(* C16 — every stage of the construction preserves the language, and minimisation is minimal.
+
+   L_clusters: the union of the cluster languages; L_dfa: the language of an automaton whose
+   edges are labelled with graphemes; L_expr: the language of an expression (Proofs/Lang.v).
+   Lw_from d s: the right language of state s over grapheme LABELS (QuotientLang.v). *)
+From Grex Require Import Base.Str Model.Config Model.Cluster Model.Dfa Model.Expr Model.Pipeline.
+From Grex Require Import Proofs.Lang Proofs.TrieLang Proofs.QuotientLang Proofs.MinimizeLang
+  Proofs.HopcroftCoarsest Proofs.PropsGlue.
+From Grex Require Proofs.ElimLang.
+
+(* trie: exactly the cluster languages when no edge is merged ... *)
+Theorem C16_trie : forall (lit cls : cp -> cp -> Prop) (cs : list cluster) d,
+  Forall wf_cluster cs -> Forall (Forall uniform_g) cs ->
+  trie_of cs = Some d -> no_merge cs = true ->
+  leq (L_dfa lit cls d) (L_clusters lit cls cs).
+Proof. exact trie_lang. Qed.
+
+(* ... and at least the cluster languages in any case *)
+Theorem C16_trie_sup : forall (lit cls : cp -> cp -> Prop) (cs : list cluster) d,
+  Forall wf_cluster cs -> Forall (Forall uniform_g) cs ->
+  trie_of cs = Some d ->
+  lsub (L_clusters lit cls cs) (L_dfa lit cls d).
+Proof. exact trie_lang_sup. Qed.
+
+(* minimisation of a trie: same language on non-empty strings, nothing added; the empty string
+   is kept when the root is not final or shares its block (K4 otherwise) *)
+Theorem C16_min_lang : forall (lit cls : cp -> cp -> Prop) (cs : list cluster) t,
+  Forall wf_cluster cs -> Forall (Forall uniform_g) cs -> no_merge cs = true ->
+  trie_of cs = Some t ->
+  exists d' p,
+    partition_of t = Some p /\ recreate_graph t p = Some d' /\ minimize t = Some d'
+    /\ wf_dfa d'
+    /\ (exists rank : nat -> nat, forall e, In e (d_edges d') -> rank (e_dst e) < rank (e_src e))
+    /\ (forall u, u <> [] -> (L_dfa lit cls d' u <-> L_dfa lit cls t u))
+    /\ (L_dfa lit cls d' [] -> L_dfa lit cls t [])
+    /\ (eps_safe t p -> leq (L_dfa lit cls d') (L_dfa lit cls t))
+    /\ (~ In (d_init t) (d_finals t) -> leq (L_dfa lit cls d') (L_dfa lit cls t))
+    /\ (forall s, s < d_n t -> s <> d_init t ->
+          block_index s p 0 = block_index (d_init t) p 0 -> leq (L_dfa lit cls d') (L_dfa lit cls t)).
+Proof. exact minimize_trie_lang. Qed.
+
+(* the minimised trie is deterministic and no two states have the same right language *)
+Theorem C16_min_minimal : forall (cs : list cluster) t d',
+  Forall wf_cluster cs -> Forall (Forall uniform_g) cs -> cs <> [] ->
+  no_merge cs = true -> trie_of cs = Some t -> minimize t = Some d' ->
+  (forall p, partition_of t = Some p -> eps_safe t p) ->
+  deterministic d'
+  /\ (forall i j, i < d_n d' -> j < d_n d' ->
+        (forall w, Lw_from d' i w <-> Lw_from d' j w) -> i = j).
+Proof. exact trie_minimize_minimal. Qed.
+
+(* Expression::from (state elimination) on an acyclic automaton with a non-empty language *)
+Theorem C16_elim : forall (lit cls : cp -> cp -> Prop) c d e,
+  wf_dfa d -> ElimLang.acyclic d -> (exists u, L_dfa lit cls d u) ->
+  expr_from c d = Some e -> leq (L_expr lit cls e) (L_dfa lit cls d).
+Proof. exact expr_from_lang_closed. Qed.
+
+(* ... and in general: an automaton with the empty language is mapped to the empty literal *)
+Theorem C16_elim_gen : forall (lit cls : cp -> cp -> Prop) c d e,
+  wf_dfa d -> ElimLang.acyclic d -> expr_from c d = Some e ->
+  leq (L_expr lit cls e) (L_dfa lit cls d)
+  \/ (e = ELit [] /\ forall u, ~ L_dfa lit cls d u).
+Proof. exact expr_from_lang_gen_closed. Qed.
+
+(* the verified checker that the harness runs on the implementation's automata: a partition
+   accepted by stableb is a bisimulation partition, and the quotient by such a partition has
+   the same language on non-empty strings and adds nothing *)
+Theorem C16_checker_sound : forall (lit cls : cp -> cp -> Prop) d d' p,
+  stableb d p = true ->
+  stable d p
+  /\ (recreate_graph d p = Some d' ->
+      lsub (L_dfa lit cls d') (L_dfa lit cls d)
+      /\ (wf_dfa d -> no_parallel d ->
+          forall u, u <> [] -> (L_dfa lit cls d' u <-> L_dfa lit cls d u))).
+Proof.
+  intros lit cls d d' p H. split; [exact (stableb_spec d p H)|]. intros Hr. split.
+  - exact (quotient_lang_sub lit cls d d' p H Hr).
+  - intros Hw Hn. exact (quotient_lang_nonempty lit cls d d' p Hw Hn H Hr).
+Qed.
+
+(* the verified minimality checker: no two states with the same right language *)
+Theorem C16_min_checkb : forall d, wf_dfa d -> min_checkb d = true ->
+  forall i j, i < d_n d -> j < d_n d ->
+    (forall w, Lw_from d i w <-> Lw_from d j w) -> i = j.
+Proof. exact min_checkb_spec. Qed.
+
+Print Assumptions C16_trie.
+Print Assumptions C16_trie_sup.
+Print Assumptions C16_min_lang.
+Print Assumptions C16_min_minimal.
+Print Assumptions C16_elim.
+Print Assumptions C16_elim_gen.
+Print Assumptions C16_checker_sound.
+Print Assumptions C16_min_checkb.
